@@ -130,12 +130,32 @@ def truth(kinds, reads):
     return roles, mtype
 
 
-def values(kinds, reads, ext=None):
+INIT2 = {0: 1.05, 1: 0.55, 2: -1.45, 3: 2.95}   # the states after an integrator moved them (second evaluation point)
+
+
+def state_dependent(kinds, reads, i, _seen=None):
+    """True iff the value of variable i depends on a state (not merely on the variable of integration)."""
+    _seen = _seen if _seen is not None else set()
+    if i == 't' or i in _seen:
+        return False
+    _seen.add(i)
+    if kinds[i] == 'S':
+        return True
+    rs = set(reads[i])
+    if kinds[i] == 'C':
+        for c_ in range(len(kinds)):
+            if kinds[c_] == 'C':
+                rs |= set(reads[c_])
+    return any(state_dependent(kinds, reads, j, _seen) for j in rs)
+
+
+def values(kinds, reads, ext=None, init=None):
     """Reference values at t = VOI with states at their initial values: value[i] for K/E/N, (initial, rate) for S.
-    ext: {i: value} overrides (external variables)."""
+    ext: {i: value} overrides (external variables); init: the values of the states (default: their initial values)."""
     n = len(kinds)
     val = {}
     ext = ext or {}
+    sinit = lambda i: init[i] if init is not None and kinds[i] == 'S' else INIT[i]
     cgroup = [i for i in range(n) if kinds[i] == 'C']
 
     def solve_group():
@@ -170,7 +190,7 @@ def values(kinds, reads, ext=None):
             solve_group()
             return val[i]
         if k in 'KS':
-            val[i] = INIT[i]
+            val[i] = sinit(i)
         elif k == 'E':
             val[i] = CONST[i] + sum(get(j) for j in sorted(reads[i], key=str))
         else:  # v + R = 2v - c  =>  v = R + c
@@ -179,7 +199,7 @@ def values(kinds, reads, ext=None):
     res = {}
     for i in range(n):
         if kinds[i] == 'S':
-            res[i] = (ext.get(i, INIT[i]), CONST[i] + sum(get(j) for j in sorted(reads[i], key=str)))
+            res[i] = (ext.get(i, sinit(i)), CONST[i] + sum(get(j) for j in sorted(reads[i], key=str)))
         else:
             res[i] = get(i)
     return res
